@@ -454,7 +454,8 @@ func (d *drv) probe(tag string) {
 	if !d.alive() {
 		problems = append(problems, "process exited")
 	}
-	d.tr.Emit(map[string]any{"ev": "Probe", "tag": tag, "serving": serving, "listening": listening, "runners": -1, "problems": problems, "unhandled": unhandled})
+	d.tr.Emit(map[string]any{"ev": "Probe", "tag": tag, "serving": serving, "listening": listening, "runners": -1, "problems": problems, "unhandled": unhandled,
+		"natlife": [][]interface{}{}, "natms": 0, "natslack": 0})
 	// C20 at process level: nothing the server exports may contain the client's address
 	_, text, err := d.scrape()
 	if err == nil {
